@@ -126,6 +126,20 @@ def run(ctx):
     chk.require(nviews >= 3, f'expected at least 3 public views with their own index query (list_all_objects, count_objects, get_total_size, ...), found {nviews}')
     chk.require(any(r['instances'] for k, r in chk.rules.items() if k == R2), 'list_all_objects was not analysed')
 
+    # no memoised reader of files / the index behind any public method of the container (a cached answer is a stale answer for a long-open handle)
+    from .common import memoised_external_readers, reachable_functions
+    memo = memoised_external_readers(ctx, S)
+    pub_reach = {}
+    for name, f in sorted(cont.methods.items()):
+        if not name.startswith('_'):
+            pub_reach.update(reachable_functions(ctx, S, f))
+    badm = [(f2, d) for f2, d in memo if f2.qualname in pub_reach]
+    for f2, d in badm:
+        chk.bad(R3, f2.qualname, f'@{d}', 'a function that reads files or the index is memoised and reachable from the public API: a long-open handle keeps answering from the remembered result '
+                'after another handle changed the container', where=f'{f2.module.relpath}:{f2.lineno}')
+    if not badm:
+        chk.ok(R3, '<package>', f'{len(memo)} memoised external reader(s)', detail='no caching decorator on any function that reads files / the index behind the public API', nontrivial=False)
+
     # R4
     q = 'container:Container.clean_storage'
     g = ctx.icfg(q, {}, write_policy(depth=5), key='wp5')
